@@ -153,7 +153,8 @@ inductive Pc where
   | check   -- `TenantManager::check_quota`                     → point `persist.checked`
   | log     -- WAL append                                       → point `persist.logged`
   | store   -- (`get`,) `put` / `delete` on RocksDB             → point `persist.stored`
-  | count   -- `increment_usage` / `decrement_usage`            → point `persist.counted`
+  | count   -- `increment_usage` / `decrement_usage` (`set_usage` in `recover`) → `persist.counted`
+  | scan    -- `recover` only: `scan_nodes` + `scan_edges`      → point `persist.scanned`
   | ret     -- release the lock, return `Ok`
   | done
 deriving DecidableEq, Repr
@@ -161,6 +162,9 @@ deriving DecidableEq, Repr
 /-- call-local variables -/
 structure Local where
   existed : Bool := false
+  /-- `recover` only: the numbers of nodes / edges its scans returned -/
+  scanN : Nat := 0
+  scanE : Nat := 0
 deriving DecidableEq, Repr
 
 /-- `TenantManager::check_quota` -/
@@ -206,6 +210,7 @@ def micro : MicroFn := fun cfg op pc s l =>
           else (bump s op.onNodes false, l, .ok .ret)
       | .update => (s, l, .ok .ret)
   | .ret => (s, l, .ok .done)
+  | .scan => (s, l, .ok .done)
   | .done => (s, l, .ok .done)
 
 def start (_ : Op) : Pc := .lock
@@ -225,6 +230,7 @@ def microLegacy : MicroFn := fun cfg op pc s l =>
       if !cfg.registered then (s, l, .error .notFound)
       else (bump s op.onNodes (op.kind == .create), l, .ok .ret)
   | .ret => (s, l, .ok .done)
+  | .scan => (s, l, .ok .done)
   | .done => (s, l, .ok .done)
 
 def startLegacy (op : Op) : Pc :=
@@ -243,13 +249,39 @@ def recoverLegacy (cfg : Cfg) (s : State) : Except Err (State × KV) :=
   else .ok ({ s with usageN := s.usageN + s.kv.nodes.length,
                      usageE := s.usageE + s.kv.edges.length }, s.kv)
 
+/-- `recover` as a program of micro-steps on a live manager (C18: recovery concurrent with
+writers): take the write lock, scan, set the counters, return -/
+abbrev RecMicroFn := Cfg → Pc → State → Local → State × Local × Except Err Pc
+
+def recMicro : RecMicroFn := fun cfg pc s l =>
+  match pc with
+  | .lock => (s, l, .ok .scan)
+  | .scan => (s, { l with scanN := s.kv.nodes.length, scanE := s.kv.edges.length }, .ok .count)
+  | .count =>
+      if !cfg.registered then (s, l, .error .notFound)
+      else ({ s with usageN := l.scanN, usageE := l.scanE }, l, .ok .ret)
+  | .ret => (s, l, .ok .done)
+  | _ => (s, l, .ok .done)
+
+/-- the pinned tree: no lock, and the counts are added -/
+def recMicroLegacy : RecMicroFn := fun cfg pc s l =>
+  match pc with
+  | .scan => (s, { l with scanN := s.kv.nodes.length, scanE := s.kv.edges.length }, .ok .count)
+  | .count =>
+      if !cfg.registered then (s, l, .error .notFound)
+      else ({ s with usageN := s.usageN + l.scanN, usageE := s.usageE + l.scanE }, l, .ok .ret)
+  | .ret => (s, l, .ok .done)
+  | _ => (s, l, .ok .done)
+
 structure Impl where
   micro : MicroFn
   start : Op → Pc
   recover : Cfg → State → Except Err (State × KV)
+  recMicro : RecMicroFn
+  recStart : Pc
 
-def fixed : Impl := ⟨micro, start, recover⟩
-def legacy : Impl := ⟨microLegacy, startLegacy, recoverLegacy⟩
+def fixed : Impl := ⟨micro, start, recover, recMicro, .lock⟩
+def legacy : Impl := ⟨microLegacy, startLegacy, recoverLegacy, recMicroLegacy, .scan⟩
 
 /-! ### one call, sequentially: the states at its hook points, the final state, the result -/
 
